@@ -154,6 +154,20 @@ Checks(g, run) ==
                       /\ \E k \in DOMAIN g.props : g.props[k].name = x.name
                       /\ ValidWitness(g, PropNamed(g, x.name), x.states, sim)
                       /\ ValidActs(g, x.states, x.acts)),
+    \* what Checker::report writes and discovery_classification answers: the "Done." line carries the checker's counts;
+    \* exactly the discoveries are listed, each with the classification that belongs to its property's expectation
+    \* (always / eventually: counterexample, sometimes: example) and a fingerprint path denoting the discovery's states
+    report |-> Chk("report" \in DOMAIN d /\ d.report.present,
+                 LET rp == d.report
+                     ClassOf(nm) == IF PropNamed(g, nm).kind = "sometimes" THEN "example" ELSE "counterexample"
+                 IN /\ ~rp.panicked
+                    /\ Len(rp.done_lines) = 1
+                    /\ rp.done_lines[1].states = d.total /\ rp.done_lines[1].unique = d.unique /\ rp.done_lines[1].depth = d.max_depth
+                    /\ Len(rp.items) = Len(d.discoveries)
+                    /\ {<<rp.items[i].name, rp.items[i].nodes>> : i \in DOMAIN rp.items}
+                         = {<<d.discoveries[i].name, d.discoveries[i].states>> : i \in DOMAIN d.discoveries}
+                    /\ \A i \in DOMAIN rp.items : rp.items[i].classification = ClassOf(rp.items[i].name)
+                    /\ \A i \in DOMAIN rp.class_of : rp.class_of[i].classification = ClassOf(rp.class_of[i].name)),
     \* ---- C11 -------------------------------------------------------
     ev_sound |-> Chk(a_evs,
                  \A i \in DOMAIN g.props :
